@@ -3,10 +3,14 @@ package PKGNAME
 // C12 (phase unwrapping), C13 (analysis values equal their definitions).
 
 import (
+	"encoding/binary"
 	"fmt"
 	"math"
 	"math/big"
 	"math/rand"
+	"net"
+	"sync"
+	"time"
 
 	"gonum.org/v1/gonum/mat"
 )
@@ -155,6 +159,10 @@ func vUnwrapContext(o vUnwrapOpts, in []RawType, i int) string {
 }
 
 func vRunC12(c *vCase) {
+	if c.Idx%100 == 13 {
+		vRunC12Roach(c)
+		return
+	}
 	r := c.R
 	var o vUnwrapOpts
 	switch r.Intn(4) {
@@ -536,8 +544,8 @@ func init() {
 		},
 		Run: vRunC12,
 		Meta: vMeta{
-			Level: "exploration",
-			Rule:  "case = option set (Abaco 16/4, Roach 14/2 or random fractionBits/drop, enable, bias, pulse sign, resetAfter 1..50/20000 and, in 1 case of 40, 65534..131072 with sequences of twice that length, inversion) x input sequence family (slow/fast walk, exact +-pi steps, wrap-heavy ramp, constant, uniform, excursions that drive the reset counter to its boundary) x random split into calls (incl. empty and 1-sample); oracle = congruence modulo the quantum, step bounds between resets, equality with an integer model of the statement, identical output for the split run",
+			Level:       "exploration",
+			Rule:        "case = option set (Abaco 16/4, Roach 14/2 or random fractionBits/drop, enable, bias, pulse sign, resetAfter 1..50/20000 and, in 1 case of 40, 65534..131072 with sequences of twice that length, inversion) x input sequence family (slow/fast walk, exact +-pi steps, wrap-heavy ramp, constant, uniform, excursions that drive the reset counter to its boundary) x random split into calls (incl. empty and 1-sample); oracle = congruence modulo the quantum, step bounds between resets, equality with an integer model of the statement, identical output for the split run",
 			Assumptions: []string{"the integer model is the property statement made executable (out = p + k*quantum, k changes by one when the input step leaves [bias-pi,bias+pi], returns home after more than resetAfter consecutive samples away); both interval ends are accepted"},
 			Guards: map[string]map[string]int{
 				"quick":    {"samples": 1000000, "resets": 1000, "samples_away_from_home": 100000, "calls": 50000},
@@ -554,8 +562,8 @@ func init() {
 		},
 		Run: vRunC13,
 		Meta: vMeta{
-			Level: "exploration",
-			Rule:  "case = record (npre 3..1000, length npre+1..~4000, signed/unsigned, content family: constant, full scale, alternating 0/65535, signed wrap-around, random, pulse, ramp, zero) optionally with projector/basis matrices (1-8 bases; random, identity-like, ill-scaled); oracle = exact rational / 300-bit float reference of every analysis value with tolerance 1e-9 x the largest magnitude entering the sum; also the float32 fields of the summary message",
+			Level:       "exploration",
+			Rule:        "case = record (npre 3..1000, length npre+1..~4000, signed/unsigned, content family: constant, full scale, alternating 0/65535, signed wrap-around, random, pulse, ramp, zero) optionally with projector/basis matrices (1-8 bases; random, identity-like, ill-scaled); oracle = exact rational / 300-bit float reference of every analysis value with tolerance 1e-9 x the largest magnitude entering the sum; also the float32 fields of the summary message",
 			Assumptions: []string{"peak value follows the code's documented convention (maximum starts at the pretrigger mean, so peak >= 0)", "a NaN pulse RMS is accepted only when the true mean square is below the tolerance"},
 			Guards: map[string]map[string]int{
 				"quick":    {"records": 2000, "records_with_projectors": 800, "summary_fields": 3000, "distinct:kind": 8},
@@ -563,4 +571,154 @@ func init() {
 			},
 		},
 	})
+}
+
+// ---------------------------------------------------------------- C12 through a caller: the ROACH device path
+
+type vRoachTap struct {
+	*RoachSource
+	mu     sync.Mutex
+	first  []FrameIndex
+	blocks [][][]RawType // block -> channel -> samples
+}
+
+func (t *vRoachTap) ProcessSegments(b *dataBlock) error {
+	if b.err == nil && len(b.segments) > 0 {
+		chs := make([][]RawType, len(b.segments))
+		for i, seg := range b.segments {
+			chs[i] = append([]RawType(nil), seg.rawData...)
+		}
+		t.mu.Lock()
+		t.first = append(t.first, b.segments[0].firstFrameIndex)
+		t.blocks = append(t.blocks, chs)
+		t.mu.Unlock()
+	}
+	return t.RoachSource.ProcessSegments(b)
+}
+
+// vRunC12Roach: phase data reach the unwrapper through RoachDevice.readPackets in several data blocks (bursts of UDP
+// packets more than one bundling period apart); the concatenated output must equal one unwrapper run over the whole stream.
+func vRunC12Roach(c *vCase) {
+	r := c.R
+	port := vFreeUDPPort()
+	nchan := 1 + r.Intn(3)
+	nsamp := 10 + r.Intn(30)
+	opts := AbacoUnwrapOptions{RescaleRaw: true, Unwrap: true, Bias: vChance(r, 0.5), PulseSign: vPick(r, 1, -1), ResetAfter: 20000}
+	base := make([]int, nchan)
+	step := make([]int, nchan)
+	for i := range base {
+		base[i] = r.Intn(65536)
+		step[i] = vPick(r, 37, 900, 3000, -2500, 9000)
+	}
+	rawAt := func(ch int, s uint64) RawType { return RawType(uint16(base[ch] + step[ch]*int(s))) }
+	mk := func(sampnum uint64) []byte {
+		b := make([]byte, 16+2*nchan*nsamp)
+		binary.BigEndian.PutUint16(b[2:], uint16(nchan))
+		binary.BigEndian.PutUint16(b[4:], uint16(nsamp))
+		binary.BigEndian.PutUint16(b[6:], 1)
+		binary.BigEndian.PutUint64(b[8:], sampnum)
+		for j := 0; j < nsamp; j++ {
+			for ch := 0; ch < nchan; ch++ {
+				binary.BigEndian.PutUint16(b[16+2*(ch+nchan*j):], uint16(rawAt(ch, sampnum+uint64(j))))
+			}
+		}
+		return b
+	}
+	rs, _ := NewRoachSource()
+	defer rs.Delete()
+	if err := rs.Configure(&RoachSourceConfig{HostPort: []string{fmt.Sprintf("127.0.0.1:%d", port)}, Rates: []float64{20000}, AbacoUnwrapOptions: opts}); err != nil {
+		c.Inconclusive("setup", "Roach configure: %v", err)
+		return
+	}
+	conn, err := net.Dial("udp", fmt.Sprintf("127.0.0.1:%d", port))
+	if err != nil {
+		c.Inconclusive("setup", "%v", err)
+		return
+	}
+	defer conn.Close()
+	var next uint64
+	send := func(n int) {
+		for i := 0; i < n; i++ {
+			conn.Write(mk(next))
+			next += uint64(nsamp)
+			time.Sleep(300 * time.Microsecond)
+		}
+	}
+	// packets for the sampling phase of Start, from a helper goroutine until Start has returned
+	stopFeed := make(chan struct{})
+	feedDone := make(chan struct{})
+	go func() {
+		defer close(feedDone)
+		for {
+			select {
+			case <-stopFeed:
+				return
+			default:
+				send(1)
+				time.Sleep(2 * time.Millisecond)
+			}
+		}
+	}()
+	tap := &vRoachTap{RoachSource: rs}
+	queued := make(chan func())
+	err = Start(tap, queued, 4, 16)
+	close(stopFeed)
+	<-feedDone
+	if err != nil {
+		c.Inconclusive("setup", "Roach start: %v", err)
+		return
+	}
+	bursts := 2 + r.Intn(2)
+	for b := 0; b < bursts; b++ {
+		time.Sleep(160 * time.Millisecond) // longer than the 100 ms bundling period: the next packets form another block
+		send(3 + r.Intn(8))
+	}
+	time.Sleep(250 * time.Millisecond)
+	vWatched(c, "Stop", 20*time.Second, func() { rs.Stop() })
+	tap.mu.Lock()
+	defer tap.mu.Unlock()
+	if len(tap.blocks) < 2 {
+		c.Cov("roach_path_too_few_blocks", 1)
+		return
+	}
+	// contiguity: a lost datagram makes the run unusable (not a verdict)
+	pos := tap.first[0]
+	for bi, chs := range tap.blocks {
+		if tap.first[bi] != pos {
+			c.Cov("roach_path_skipped_after_packet_loss", 1)
+			return
+		}
+		pos += FrameIndex(len(chs[0]))
+	}
+	bias := opts.calcBiasLevel()
+	for ch := 0; ch < nchan; ch++ {
+		var raw, got []RawType
+		s := uint64(tap.first[0])
+		for _, chs := range tap.blocks {
+			got = append(got, chs[ch]...)
+		}
+		for i := range got {
+			raw = append(raw, rawAt(ch, s+uint64(i)))
+		}
+		ref := NewPhaseUnwrapper(roachFractionBits, roachBitsToDrop, true, bias, 20000, opts.PulseSign, false)
+		ref.UnwrapInPlace(&raw)
+		for i := range got {
+			if got[i] != raw[i] {
+				c.Violate("c12:device-path-split", "ROACH channel %d (bias %v, pulse sign %d): sample %d of the stream (block sizes %v) is %d, one unwrapper run over the whole stream gives %d: the result depends on how the device splits the stream into blocks",
+					ch, opts.Bias, opts.PulseSign, i, vBlockSizes(tap.blocks), got[i], raw[i])
+				return
+			}
+		}
+	}
+	c.Cov("roach_path_runs", 1)
+	c.Cov("roach_path_blocks", len(tap.blocks))
+	c.Nontrivial()
+}
+
+func vBlockSizes(b [][][]RawType) []int {
+	var out []int
+	for _, chs := range b {
+		out = append(out, len(chs[0]))
+	}
+	return out
 }
